@@ -64,6 +64,8 @@ class Engine:
         self.solver = z3.Solver()
         self.solver.set('timeout', check_timeout_ms)
         self.sstack = []            # z3 terms currently pushed on the solver, one level per constraint
+        self.sids = []              # their ast ids (terms are kept alive by sstack, so ids are stable)
+        self.persist = {}           # cross-path cache of input terms (same names => same terms)
         self.check_timeout_ms = check_timeout_ms
         self.max_paths = max_paths
         self.conc_limit = conc_limit
@@ -75,6 +77,7 @@ class Engine:
         self.trace = []
         self.pos = 0
         self.nconstraints = 0
+        self.lits = {}              # ids of the constraints of the current path condition
         self.poison = None
         self.fresh_counter = 0
         self.inputs = {}
@@ -104,21 +107,27 @@ class Engine:
     def _push(self, term):
         """append a constraint to the path condition, keeping the incremental solver in sync"""
         k = self.nconstraints
-        if k < len(self.sstack) and self.sstack[k].eq(term):
+        tid = term.get_id()
+        if k < len(self.sstack) and self.sids[k] == tid:
             self.nconstraints += 1
+            self.lits[tid] = self.lits.get(tid, 0) + 1
             return
         while len(self.sstack) > k:
             self.solver.pop()
             self.sstack.pop()
+            self.sids.pop()
         self.solver.push()
         self.solver.add(term)
         self.sstack.append(term)
+        self.sids.append(tid)
         self.nconstraints += 1
+        self.lits[tid] = self.lits.get(tid, 0) + 1
 
     def _trim(self):
         while len(self.sstack) > self.nconstraints:
             self.solver.pop()
             self.sstack.pop()
+            self.sids.pop()
 
     def _check(self, *assumptions):
         self._trim()
@@ -134,15 +143,16 @@ class Engine:
         return list(self.sstack[:self.nconstraints])
 
     # -- constraints that are not decisions --------------------------------------------------
-    def add(self, term):
+    def add(self, term, simplified=False):
         """definitional constraint (fresh variables) or assumption known to keep the path feasible"""
         if isinstance(term, bool):
             if not term:
                 raise Infeasible()
             return
-        term = z3.simplify(term)
-        if z3.is_true(term):
-            return
+        if not simplified:
+            term = z3.simplify(term)
+            if z3.is_true(term):
+                return
         self._push(term)
 
     def assume(self, cond):
@@ -189,12 +199,23 @@ class Engine:
         if z3.is_false(t):
             return False
         self.stats['events'] += 1
+        tid = t.get_id()
+        if tid in self.lits:
+            self.stats['syntactic'] = self.stats.get('syntactic', 0) + 1
+            return True
+        if z3.is_not(t):
+            if t.arg(0).get_id() in self.lits:
+                self.stats['syntactic'] = self.stats.get('syntactic', 0) + 1
+                return False
+        elif z3.Not(t).get_id() in self.lits:
+            self.stats['syntactic'] = self.stats.get('syntactic', 0) + 1
+            return False
         ev = self._replay_event('decide', t)
         if ev is not None:
             if ev.kind == 'choice':
-                self._push(t if ev.val else z3.Not(t))
+                self._push(t if ev.val else (t.arg(0) if z3.is_not(t) else z3.Not(t)))
             return ev.val
-        nt = z3.Not(t)
+        nt = t.arg(0) if z3.is_not(t) else z3.Not(t)
         r_f = self._check(nt)
         if r_f == z3.unsat:
             self.trace.append(Event('forced', True, t.hash()))
@@ -283,6 +304,7 @@ class Engine:
         self.trace = []
         self.pos = 0
         self.nconstraints = 0
+        self.lits = {}
         self.poison = None
         self.fresh_counter = 0
         self.inputs = {}
@@ -339,16 +361,19 @@ def zi(v):
 def mk_int(t, width=None):
     if isinstance(t, int):
         return t
-    t = z3.simplify(t)
     if z3.is_int_value(t):
         return t.as_long()
+    n = t.num_args()
+    if 0 < n <= 2 and all(z3.is_int_value(a) for a in t.children()):
+        t = z3.simplify(t)
+        if z3.is_int_value(t):
+            return t.as_long()
     return SymInt(t, width)
 
 
 def mk_bool(t):
     if isinstance(t, bool):
         return t
-    t = z3.simplify(t)
     if z3.is_true(t):
         return True
     if z3.is_false(t):
@@ -713,25 +738,44 @@ def divmod_pow2(v, k):
 
 
 def bits_of(v, n):
-    """list of n z3 Bool terms: the n low bits of v (v: int | SymInt), least significant first"""
+    """list of n z3 Bool terms: the n low bits of v (v: int | SymInt), least significant first.
+    One decomposition per term and path: a value of known width w is decomposed once into w bits
+    (v == sum bit_i 2^i); a value of unknown width into the widest prefix requested so far plus a
+    quotient (v == hi * 2^n + sum)."""
     if isinstance(v, SymBool):
-        v = SymInt(zi(v), 1)
+        return ([v.t] + [z3.BoolVal(False)] * (n - 1))[:n]
     if isinstance(v, int):
         return [z3.BoolVal(bool((v >> i) & 1)) for i in range(n)]
     e = eng()
-    key = ('bits', v.t.get_id(), n)
+    key = ('bits', v.t.get_id())
     hit = e.run_cache.get(key)
-    if hit is not None and hit[0].eq(v.t):
-        return hit[1]
+    if hit is not None and hit[0].eq(v.t) and (hit[2] or len(hit[1]) >= n):
+        bs = hit[1]
+        return (bs + [z3.BoolVal(False)] * (n - len(bs)))[:n] if hit[2] else bs[:n]
+    if v.width is not None:
+        w = v.width
+        # bit variables are named after the term, so the decomposition is shared by all paths
+        pk = ('bits', v.t.get_id(), w)
+        ph = e.persist.get(pk)
+        if ph is None or not ph[0].eq(v.t):
+            bs = [z3.Bool(f'bit.{v.t.get_id()}.{i}') for i in range(w)]
+            sm = z3.Sum([z3.If(b, 1 << i, 0) for i, b in enumerate(bs)]) if w > 1 else z3.If(bs[0], 1, 0)
+            ph = e.persist[pk] = (v.t, bs, v.t == sm)
+        bs = ph[1]
+        e.add(ph[2], simplified=True)
+        e.run_cache[key] = (v.t, bs, True)
+        return (bs + [z3.BoolVal(False)] * (n - w))[:n]
     bs = [e.fresh_bool('bit') for _ in range(n)]
     s = z3.Sum([z3.If(b, 1 << i, 0) for i, b in enumerate(bs)]) if n > 1 else z3.If(bs[0], 1, 0)
-    if v.width is not None and v.width <= n:
-        e.add(v.t == s)
-    else:
-        q = e.fresh_int('hi')
-        e.add(v.t == q * (1 << n) + s)
-    e.run_cache[key] = (v.t, bs)
+    q = e.fresh_int('hi')
+    e.add(v.t == q * (1 << n) + s)
+    e.run_cache[key] = (v.t, bs, False)
     return bs
+
+
+def register_bits(v, bs):
+    """declare that SymInt v (of width len(bs)) is by construction sum bs[i] 2^i"""
+    eng().run_cache[('bits', v.t.get_id())] = (v.t, list(bs), True)
 
 
 def _width(v):
@@ -745,6 +789,65 @@ def _width(v):
 
 
 def bitop(op, a, b):
+    if isinstance(a, int) and not isinstance(b, int):
+        a, b = b, a
+    if isinstance(a, SymBool):
+        a = SymInt(zi(a), 1)
+    if isinstance(b, SymBool):
+        b = SymInt(zi(b), 1)
+    if isinstance(b, int) and isinstance(a, SymInt):
+        e = eng()
+        key = ('bitop', op, a.t.get_id(), b)
+        hit = e.run_cache.get(key)
+        if hit is not None and hit[0].eq(a.t):
+            return hit[1]
+        if a.width is not None:
+            ph = e.persist.get(key)
+            if ph is not None and ph[0].eq(a.t):
+                bits_of(a, a.width)          # makes sure the defining constraint is on this path
+                e.run_cache[key] = ph
+                return ph[1]
+        res = _bitop_const(op, a, b)
+        e.run_cache[key] = (a.t, res)
+        if a.width is not None:
+            e.persist[key] = (a.t, res)
+        return res
+    return _bitop_general(op, a, b)
+
+
+def _bitop_const(op, a, m):
+    if m < 0:
+        return _bitop_general(op, a, m)
+    wa = a.width
+    if op == 'and':
+        if m == 0:
+            return 0
+        n = m.bit_length() if wa is None else min(wa, m.bit_length())
+        ba = bits_of(a, n)
+        terms = [z3.If(ba[i], 1 << i, 0) for i in range(n) if (m >> i) & 1 and not z3.is_false(ba[i])]
+        if not terms:
+            return 0
+        return SymInt(z3.Sum(terms) if len(terms) > 1 else terms[0], n)
+    if wa is None:
+        eng().fail(Unsupported, f'bit {op} of unbounded symbolic int with constant')
+    n = max(wa, m.bit_length())
+    ba = bits_of(a, n)
+    terms = []
+    const = 0
+    for i in range(n):
+        mb = (m >> i) & 1
+        if op == 'or':
+            if mb:
+                const += 1 << i
+            else:
+                terms.append(z3.If(ba[i], 1 << i, 0))
+        else:   # xor
+            terms.append(z3.If(ba[i], 0, 1 << i) if mb else z3.If(ba[i], 1 << i, 0))
+    t = z3.Sum(terms) if len(terms) > 1 else (terms[0] if terms else z3.IntVal(0))
+    return mk_int(t + const if const else t, n)
+
+
+def _bitop_general(op, a, b):
     wa, wb = _width(a), _width(b)
     if op == 'and':
         # result fits in the narrower non-negative operand
